@@ -5,6 +5,7 @@ import numpy.linalg as npla
 from autograd.extend import defjvp, defvjp
 
 from . import numpy_wrapper as anp
+from .numpy_vjps import match_complex
 from .numpy_wrapper import wrap_namespace
 
 wrap_namespace(npla.__dict__, globals())
@@ -68,9 +69,9 @@ defvjp(pinv, grad_pinv)
 def grad_solve(argnum, ans, a, b):
     updim = lambda x: x if x.ndim == a.ndim else x[..., None]
     if argnum == 0:
-        return lambda g: -_dot(updim(solve(T(a), g)), T(updim(ans)))
+        return lambda g: match_complex(a, -_dot(updim(solve(T(a), g)), T(updim(ans))))
     else:
-        return lambda g: solve(T(a), g)
+        return lambda g: match_complex(b, solve(T(a), g))
 
 
 defvjp(solve, partial(grad_solve, 0), partial(grad_solve, 1))
